@@ -61,6 +61,9 @@ CLAIMED = {
  "C17": dict(engine="E4+E1+E2", technique="exhaustive enumeration of struct-shape pairs x operations; BFS with settings letters; schedule exploration of settings changes against the flusher",
    text="All ordered pairs over 12 struct variants sharing package and type name x {0,2} objects x 21 operations (first and later) with the pair class computed by an independent reflection walk: structure change => ErrStructureChanged and byte-identical files; constraint / extension change => Create refused; compatible => data preserved. Create with every cache/async combination as alphabet letters in BFS histories with pending writes, and as client calls against the running background writer over all schedules within 2 deviations.",
    note="12 shape variants; settings histories to depth 3 (quick) / 4.", ref="6/C17"),
+ "C18": dict(engine="E1+corpus", technique="explicit-state BFS with an independent layout walk in every state; replay of a golden corpus written by the pinned release",
+   text="In every state reached by BFS under 11 configurations an independent walk (no sod code) checks directory name, file set and names, gzip, plain-JSON content under the Go field names and the persistent schema.json format including exact 64-bit index tuples; every directory of the committed corpus written by the pinned commit (900 distinct final states x 12 configurations) is opened by the current code, swept, written to, closed, reopened and walked again.",
+   note="One other version (the pinned commit) and one independent decoder (encoding/json + gzip).", ref="6/C18"),
 }
 
 NOT_YET = {}
